@@ -424,6 +424,19 @@ example : InGoFragment envE exFileE 0 exGet ∧ InGoFragment envE exFileE 0 exMk
   refine ⟨?_, ?_, ?_⟩ <;> (unfold InGoFragment; decide +kernel)
 example : (Sem.run 200 (progOf exFileE)).status = "ok" ∧ (Sem.run 200 (progOf exFileE)).out = "five\ndone\n" := by
   decide +kernel
+/-- the same local in two clauses of a `match` is inside (each clause is its own Go block: `scopedLocalsOK`), declared
+    twice in one block it is outside (Go rejects the redeclaration) -/
+private def exGet2 : AFn :=
+  { name := "get2", params := [("o/0", tOpt)], ret := t32,
+    body := .ret (.matchE (.var "o/0" tOpt)
+      [.mk (.tag 0 tOpt) (.letE "x0" (.imm (litI 0)) (.ret (.imm (.var "x0" t32))) t32),
+       .mk (.tag 1 tOpt) (.letE "x0" (.cget (.var "o/0" tOpt) (.enum "Opt" "Some" 1) 0 t32) (.ret (.imm (.var "x0" t32))) t32)]
+      .none t32) }
+private def exTwice : AFn :=
+  { name := "twice", params := [], ret := t32,
+    body := .letE "x0" (.imm (litI 0)) (.letE "x0" (.imm (litI 1)) (.ret (.imm (.var "x0" t32))) t32) t32 }
+example : InGoFragment envE [exGet2] 0 exGet2 ∧ ¬ InGoFragment envE [exTwice] 0 exTwice := by
+  refine ⟨?_, ?_⟩ <;> (unfold InGoFragment; decide +kernel)
 /-- reading a payload outside the arm that fixes the variant is outside the fragment -/
 private def exBadGet : AFn :=
   { name := "bad", params := [("o/0", tOpt)], ret := t32,
